@@ -137,13 +137,13 @@ Qed.
 
 (* the attribute records of a processed region: the root with its new style map, the rest cleaned *)
 Lemma region_done_attrs c d inits r r2 wm nda : region_done c d inits r r2 wm nda ->
-  exists st, region_layout c d inits (keep_styles c (e_styles (eattrs r))) = Ok (st, wm, nda) /\
-             elems_of r2 = with_styles (style_attrs c (anim_attrs (eattrs r))) st
-                           :: map (fun a => style_attrs c (anim_attrs a)) (flat_map elems_of (echildren r)).
+  exists st, region_layout c d inits (keep_rstyles c (e_styles (eattrs r))) = Ok (st, wm, nda) /\
+             elems_of r2 = with_styles (rstyle_attrs c (anim_attrs (eattrs r))) st
+                           :: map (fun a => rstyle_attrs c (anim_attrs a)) (flat_map elems_of (echildren r)).
 Proof.
   intros [st [Hl ->]]. exists st. rewrite eattrs_clean in *. split; [exact Hl|].
-  destruct r as [a cs]. cbn [elems_of eattrs echildren style_elem anim_elem map_attrs]. f_equal.
+  destruct r as [a cs]. cbn [elems_of eattrs echildren rstyle_elem anim_elem map_attrs]. f_equal.
   clear Hl. rewrite map_map. induction cs as [|x cs IH]; [reflexivity|]. cbn [map flat_map]. rewrite map_app, IH. f_equal.
-  fold (anim_elem x). fold (style_elem c (anim_elem x)). unfold style_elem, anim_elem.
+  fold (anim_elem x). fold (rstyle_elem c (anim_elem x)). unfold rstyle_elem, anim_elem.
   rewrite map_attrs_compose, elems_of_map_attrs. reflexivity.
 Qed.
